@@ -317,6 +317,11 @@ class IG:
                     for r in rets:
                         out.extend(self.origins(r.ev["v"], child, depth + 1, seen))
                     return out
+            n = fr.ev_node.get(desc["id"])
+            if n is not None and n.ev["e"] == "ctor" and n.ev.get("ckind") in ("copy", "move") and \
+                    len(n.ev.get("args", [])) == 1:
+                # a copy/move construction carries the value of its operand
+                return self.origins(n.ev["args"][0], fr, depth + 1, seen)
             return [desc]
         return [desc]
 
